@@ -248,6 +248,25 @@ def rand_nonoverlapping(rng, n, span, allow_zero=True, touch_p=0.35, zero_p=0.2)
     return out
 
 
+BUCKET_ID_FAMILIES = [
+    ["bk-0", "bk-1", "bk-2", "bk-3"],
+    # ids that differ only in letter case (hostnames are not case-stable everywhere), in SQL LIKE/GLOB wildcards, in
+    # surrounding blanks, in Unicode composition, in how a number would be spelt, or in their last of many characters
+    ["aw-watcher-afk_DESKTOP-7Q2", "aw-watcher-afk_desktop-7q2", "AW-WATCHER-AFK_DESKTOP-7Q2", "Aw-Watcher-Afk_Desktop-7q2"],
+    ["bk_1", "bk%1", "bkx1", "bk*1"],
+    ["bk", "bk ", " bk", "bk-"],
+    ["b\u00e9", "be\u0301", "B\u00c9", "be"],
+    ["1", "01", "1.0", "1e0"],
+    ["a" * 200, "a" * 199 + "b", "a" * 201, "A" * 200],
+]
+
+
+def bucket_ids(rng, n, plain_p=0.5):
+    """n distinct bucket ids: plain ones, or a family of ids that are easily taken for one another"""
+    fam = BUCKET_ID_FAMILIES[0] if rng.random() < plain_p else rng.choice(BUCKET_ID_FAMILIES[1:])
+    return rng.sample(fam, n)
+
+
 def big_n(rng, n, p=0.004, sizes=(120, 257, 600)):
     """n, or (rarely) a list length two orders of magnitude beyond the usual handful: a change that behaves
     differently only beyond some size, or at a batch boundary, has to meet such a list"""
